@@ -164,8 +164,22 @@ func c19e2eCheck(e cliEntry, f *pflag.Flag) (string, string) {
 	o1 := verdictStr(r1) + " " + with.String()
 	if o0 == o1 && c19binary != "" && !c18hasFlag(e.Args, "-t") { // several threads: record order is free (C11/C18)
 		// the same pair in fresh processes of the plain binary
-		f0, _ := cliFreshRun(c19binary, e, e.Args)
-		f1, _ := cliFreshRun(c19binary, e, args2)
+		// without --seed a fresh process seeds its generator from the clock (the in-process clock is the constant T0):
+		// both command lines get the same explicit seed, and the seed flag itself is left to the in-process comparison
+		fa, fb := e.Args, args2
+		if !c18hasFlag(e.Args, "--seed") {
+			if f.Name == "seed" {
+				fa, fb = nil, nil
+			} else {
+				fa = append(append([]string{}, fa...), "--seed", "1")
+				fb = append(append([]string{}, fb...), "--seed", "1")
+			}
+		}
+		var f0, f1 string
+		if fa != nil {
+			f0, _ = cliFreshRun(c19binary, e, fa)
+			f1, _ = cliFreshRun(c19binary, e, fb)
+		}
 		if f0 != f1 {
 			o0, o1 = "fresh process: "+f0, "fresh process: "+f1
 		}
